@@ -603,7 +603,8 @@ class Analysis:
             aps = set()
             for kind, payload in srcs:
                 if kind == "param":
-                    aps.add((("param", payload), ()))
+                    # (a local copy of self -- an inlined helper's parameter -- is the object itself)
+                    aps.add(("self", ()) if payload == fn.self_name else (("param", payload), ()))
                 elif kind == "expr":
                     if isinstance(payload, ast.Name):
                         aps.add(("global", (payload.id,)))
